@@ -3,6 +3,7 @@
 Case grammar (one line, `head|op;op;...`; every op is total on both sides so the generic shrinker may drop any):
   Messages, 8 registers:  w:r:what   a:r:<namehex>:<t>:<hex>   am:r:<namehex>:r2         (t: b c h i l f d P R s X x<code>)
   node:                   n:<numChildren>:<namehex>
+  deep nesting:           nk:r:<count>:<what>:<fnhex|->   (wrap register r count times in a Message with one "kid" = the previous level)
   filters, a stack (reverse Polish):
      fw:min:max   fe:<name>:idx:tc   fn:<t>:<name>:idx:op:mop:<val>:<msk>:<def|->      (t as above, C = ChildCount)
      fs:<s|n>:<name>:idx:op:<val>:<def|->   fr:<name>:idx:op:tc:<val|->:<def|->
@@ -168,8 +169,10 @@ def gen_leaf(rng, depth, plan, regex_ok):
         op = rng.choice(ops_pool)
         kind = "n" if rng.random() < 0.12 else "s"
         v = rng.choice(STRS)
-        if op in (24, 25, 26, 27):
+        if op in (24, 25):
             v = rng.choice(PATTERNS)
+        if op in (26, 27):
+            v = rng.choice(PATTERNS_CI)
         d = sx(rng.choice(STRS)) if rng.random() < 0.35 else "-"
         nm = pick_name(rng, plan, "s")
         vx = sx(v)
@@ -192,6 +195,7 @@ def gen_leaf(rng, depth, plan, regex_ok):
 
 # simple wildcard / regex patterns inside the subset the C15 model's ERE engine supports
 PATTERNS = ["*", "a*", "*c", "a?c", "gre*", "[a-c]*", "ab", "g*n", "*e*", "?", "??", "a,b", "abc,green", "A*"]
+PATTERNS_CI = [p for p in PATTERNS if "[" not in p]      # MakeRegexCaseInsensitive would rewrite the letters inside a bracket expression
 
 
 def gen_tree_case(rng, depth, regex_ok=False):
@@ -528,6 +532,19 @@ def gen_expr_case(rng, feat, regex_ok=False):
     return "X|" + ";".join(ops + fops + ["e:" + sx(txt)])
 
 
+def deep_archive_cases():
+    """a valid leaf archive wrapped in many levels of kid nesting (a safe depth: the unbounded recursion itself is finding F5)"""
+    out = []
+    leaf = "w:0:%d;a:0:%s:i:05000000;a:0:%s:i:09000000" % (QF0, sx("min"), sx("max"))      # WhatCode [5, 9]
+    msgs = "w:5:5;w:6:7;w:7:10"
+    for depth in (1, 2, 3, 10, 50, 200, 400):
+        for what, fn in ((QF0 + 15, "-"), (QF0 + 14, "-"), (QF0 + 16, "-"), (QF0 + 12, sx("m"))):
+            out.append(("hostile-deep", "H|%s;%s;nk:0:%d:%d:%s;h:0" % (msgs, leaf, depth, what, fn)))
+        # a broken innermost archive under many good levels: the whole thing must fail cleanly
+        out.append(("hostile-deep", "H|%s;w:0:%d;nk:0:%d:%d:-;h:0" % (msgs, QF0 + 99, depth, QF0 + 15)))
+    return out
+
+
 def directed_cases():
     out = []
     msgs = []
@@ -576,7 +593,9 @@ class CHECK(vlib.Check):
                 "modelled on the bit patterns.  Not modelled: NULL children of a MultiQueryFilter, empty (zero-length) ByteBuffers as "
                 "RawData value/default, Strings with embedded NUL, RawData filters aimed at sub-Message/pointer fields (pointer bits).")
     premises = ["memory safety of the C++ (observed under ASan/UBSan in the harness only); recursion depth of nested archives (F5)",
-                "StringMatcher-backed string operators (wildcard / regex match) are a Section variable of the model (property C15)"]
+                "StringMatcher-backed string operators (wildcard / regex match) are a Section variable [smatch] of the evaluator: every theorem holds for any such function; the correspondence run instantiates it with property C15's StringMatcher model over its ERE engine",
+                "libc atof (strtod) and the double->float conversion are Section variables of the expression-parser model (instantiated with OCaml's in the driver)",
+                "domain: Strings NUL-free; a held ByteBuffer is non-empty; MultiQueryFilter children non-NULL; operand members within their C++ types (wf_filter)"]
     rule = ("a case builds 8 Messages and a filter tree (constructors/setters, or the archive factory on a hostile Message); the "
             "filter is evaluated on all 8 Messages directly, archived, restored, evaluated again; every line (tree read from the "
             "objects' members, decisions, archive content, restored tree and decisions) is compared with the extracted model; the "
@@ -602,16 +621,17 @@ class CHECK(vlib.Check):
         n = 900 if tier == "quick" else 12000
         out = []
         for i in range(n):
-            out.append(("tree", gen_tree_case(rng, rng.choice([0, 1, 1, 2, 2, 3]))))
+            out.append(("tree", gen_tree_case(rng, rng.choice([0, 1, 1, 2, 2, 3]), regex_ok=True)))
         for i in range(n // 3):
             out.append(("hostile", gen_hostile_case(rng, rng.choice([1, 2, 3, 5]))))
             out.append(("hostile-mutated", gen_mutated_archive_case(rng)))
         for i in range(n // 2):
-            out.append(("expr", gen_expr_case(rng, set())))
+            out.append(("expr", gen_expr_case(rng, set(), regex_ok=True)))
         for i in range(n // 8):
             out.append(("expr-index-default", gen_expr_case(rng, set(["idx", "def"]))))
             out.append(("expr-synonym-in-name", gen_expr_case(rng, set(["syn"]))))
         out += directed_cases()
+        out += deep_archive_cases()
         return out
 
     def nontrivial(self, case):
